@@ -270,6 +270,27 @@ TABLE["C05"][2].extend([
    ("dden_primal", "C05_dual_primal_is_denotation", "the primal part of the dual-number evaluation is the executable denotation"),
 ])
 TABLE["C05"] = (TABLE["C05"][0], TABLE["C05"][1] + ["Scalar", "Tensor", "Pexpr", "Exec", "Ops", "Hom", "DiffStruct", "LinkDiff"], TABLE["C05"][2])
+TABLE["C12"][2].extend([
+   ("binomial_theorem", "C12_binomial_theorem", "binomial theorem over any commutative semiring (iterated addition for the coefficients)"),
+   ("binomial_pmf_sum", "C12_binomial_normalised", "the Binomial layer is normalised: sum_k C(n,k) p^k (1-p)^(n-k) = 1 in any commutative ring, for every p"),
+   ("bin_inp_norm", "C12_binomial_input_node", "... hence a Binomial input node over the states 0..n integrates to one"),
+   ("cat_softmax_norm", "C12_softmax_categorical_input_node", "a Categorical input node whose probabilities are a softmax integrates to one (any field, exp abstract with non-zero sums)"),
+   ("cat_probs_norm_iff", "C12_categorical_probabilities_iff", "a Categorical node given by explicit probabilities is normalised exactly when every row sums to one"),
+   ("cat_logits_integral", "C12_categorical_logits_integral", "a Categorical node given by logits is unnormalised: its integral is the sum of the exponentials"),
+   ("normalised_partition_discrete", "C12_partition_one_discrete", "circuits whose inputs are softmax-categorical / unit-row categorical / Binomial nodes and whose sum rows are unit-sum, softmax or mixing rows: every unit of every node of the integrated circuit is one — NO hypothesis left on the input layers"),
+   ("partition_function_one", "C12_partition_function_one_discrete", "... the partition function (iterated sum over the states) of every unit is one"),
+   ("ExecLink.exec_binomial_normalised", "C12_executable_binomial", "the value computed by the EXECUTABLE Binomial layer (Exec.in_eval) sums to one over the states"),
+])
+TABLE["C12"] = (TABLE["C12"][0], TABLE["C12"][1] + ["InputNorm"], TABLE["C12"][2])
+PRE["C04"] = "From Coq Require Import Reals.\nFrom Coquelicot Require Import Coquelicot.\n"
+TABLE["C04"][2].extend([
+   ("multiply_gaussian_layers_correct", "C04_gaussian_product_rule", "REAL numbers: the Gaussian layer built by multiply_gaussian_layers (GaussianProductMean / GaussianProductStddev / GaussianProductLogPartition, transcribed from the torch nodes, incl. operands that already carry a log-partition) evaluates at x to the product of the two operand layers' values"),
+   ("multiply_gaussian_layers_units", "C04_gaussian_product_units", "... per unit pair (i,j) at flat index i*K2+j"),
+   ("multiply_categorical_layers_correct", "C04_categorical_product_rule", "REAL numbers: the Categorical layer with logits log p1 + log p2 (outer sum of log-probabilities / logits) evaluates to the product of the operand layers' values, any mix of probability / logit parameterisations"),
+   ("multiply_categorical_layers_units", "C04_categorical_product_units", "... per unit pair"),
+   ("gauss_product_density", "C04_gaussian_density_identity", "N(x;m1,s1) N(x;m2,s2) = exp(logZ) N(x; m, s) with the rule's m, s, logZ"),
+])
+TABLE["C04"] = (TABLE["C04"][0], TABLE["C04"][1] + ["InputRules"], TABLE["C04"][2])
 
 if __name__ == "__main__":
     for pid in (sys.argv[1:] or TABLE):
